@@ -2,7 +2,7 @@
 # tools/confirm_mutant.sh <PROP> <Mk> : independently confirm a seeded change in a scratch worktree of /repo's current HEAD
 # (/tmp/mut/confirm): the pinned suite stays green with the change; the demonstration fails with it and passes without.
 # Then store it under /verif/seeded/<PROP>-<Mk>/.
-P="$1"; M="$2"; O=/tmp/mut/$P/OUT; W=/tmp/mut/confirm
+P="$1"; M="$2"; O=${OUTDIR:-/tmp/mut/$P/OUT}; W=/tmp/mut/confirm
 [ -d "$W" ] || git -C /repo worktree add -q --detach "$W" HEAD
 cd "$W" || exit 2
 git checkout -q --detach $(git -C /repo rev-parse HEAD) 2>/dev/null
